@@ -29,6 +29,7 @@ import (
 	"github.com/atlassian/gostatsd/pkg/lambda"
 	"github.com/atlassian/gostatsd/pkg/statsd"
 	"github.com/atlassian/gostatsd/pkg/transport"
+	"github.com/atlassian/gostatsd/verifhooks"
 
 	"verifharness/internal/trace"
 	"verifharness/internal/vh"
@@ -186,6 +187,27 @@ func freeAddr() string {
 	return l.Addr().String()
 }
 
+// failing is a server whose Run returns err a moment after it was started (its own context still alive)
+type failing struct{ err error }
+
+func (f failing) Run(ctx context.Context) error {
+	select {
+	case <-time.After(20 * time.Millisecond):
+		return f.err
+	case <-ctx.Done():
+		return ctx.Err()
+	}
+}
+
+var stubFaults = map[string]failing{
+	"plainerr": {fmt.Errorf("listen udp :8125: address already in use")},
+	// a start-up step that ran into its own deadline / was given up: the error chain holds a context error while the extension's
+	// context is alive
+	"deadline": {fmt.Errorf("fetching instance metadata: %w", context.DeadlineExceeded)},
+	"canceled": {fmt.Errorf("dialing the upstream: %w", context.Canceled)},
+	"earlynil": {nil},
+}
+
 var errMachinery = fmt.Errorf("machinery")
 
 // runCase returns the observations, or errMachinery when the environment (ports) got in the way
@@ -220,8 +242,16 @@ func runCase(c *scase, idx int) ([]map[string]any, error) {
 		v.Set("http-transport.compress", true)
 		v.Set("http-transport.compression-type", "bogus")
 	}
-	ext, err := lambda.NewExtension(logger, srv, lambda.Options{RuntimeAPI: strings.TrimPrefix(rt.URL, "http://"), ExecutableName: "gostatsd-ext",
-		EnableManualFlush: true, TelemetryAddr: tele})
+	var ext interface{ Run(context.Context) error }
+	var err error
+	if stub, ok := stubFaults[c.Fault]; ok {
+		// the manager around a server that fails in a way the real server's configuration cannot be made to: the manager accepts any
+		// server (extension.Server), and whatever makes its Run return during start-up is a start-up failure
+		ext = verifhooks.NewLambdaManager(strings.TrimPrefix(rt.URL, "http://"), "gostatsd-ext", logger, stub, verifhooks.NewFlushCoordinator(), tele)
+	} else {
+		ext, err = lambda.NewExtension(logger, srv, lambda.Options{RuntimeAPI: strings.TrimPrefix(rt.URL, "http://"), ExecutableName: "gostatsd-ext",
+			EnableManualFlush: true, TelemetryAddr: tele})
+	}
 	if err != nil {
 		return nil, err
 	}
